@@ -548,7 +548,7 @@ func (w *World) opReBF(op *Op) {
 		return
 	}
 	root := fr.root
-	indep := func(k int) int { return IndepLayer(w.kd.Key(k), bf) }
+	indep := func(k int) int { return IndepLayerM(w.kd.Key(k), bf, w.cfg.MarshalFn()) }
 	wr, err := WalkPersisted(func(nm string) ([]byte, bool) { return disk.Bytes(nm) }, w.cfg.Format, rootLink(root), int(root.Height), w.keyIndexFromBody, w.kd.Rank, indep)
 	if err != nil {
 		w.st.Truncated = "format-drift: " + err.Error()
